@@ -1,42 +1,135 @@
 // Harnesses for src/coding.rs, property C07 second half (child module `coding::verif_c07`):
 // "every accepted configuration encodes every valid input without panicking" -- the consumer of
-// `fixed.order_sel = ApproxEnt { partitions }`.
+// `fixed.order_sel = ApproxEnt { partitions }` is `estimate_entropy`, which divides by `partitions`.
+//
+// Floating point under CBMC.  `estimate_entropy` calls `f32::log2` and `f32::mul_add`.  CBMC's C
+// library models of `log2f` / `fmaf` call `feraiseexcept`, which CBMC turns into a FAILING assertion
+// ("floating-point exception") for log2(0) and 0 * inf -- values Rust defines as -inf and NaN and
+// which this function produces on purpose for all-zero partitions.  The two calls are therefore
+// replaced by explicit IEEE-754 / libm range contracts (`libm_log2`, `ieee_mul_add`; ASSUMED, they
+// are statements about the platform's libm, not about the crate), and the SIMD reduction
+// `find_sum_abs_f32::<16>` by its callee contract, proved for the lengths used here by unit
+// `c07_find_sum_abs_f32_contract`.
 
-/// Body shared by the shapes: `N` residuals (concrete length, symbolic values), symbolic warm-up
-/// length and symbolic partition count inside the accepted range.
+/// Residual magnitude bound used below: 24-bit audio, side channel (+1 bit), fixed predictor of
+/// order <= 4 (at most +4 bits) stays far inside; the point of the bound is to exclude `i32::MIN`
+/// (whose `abs()` overflows, and which no predictor on <= 25-bit input can produce).
+const C07_MAX_ABS_RESIDUAL: i32 = 1 << 29;
+
+/// ASSUMED contract of `f32::log2` (faithful libm): NaN for negative or NaN arguments, -inf at
+/// zero, within [-150, 0] on (0, 1] (log2 of the smallest subnormal is -149), within [0, 128] on
+/// [1, f32::MAX], +inf at +inf.
+fn libm_log2(x: f32) -> f32 {
+    let r: f32 = kani::any();
+    if x.is_nan() || x < 0.0 {
+        kani::assume(r.is_nan());
+    } else if x == 0.0 {
+        kani::assume(r == f32::NEG_INFINITY);
+    } else if x <= 1.0 {
+        kani::assume(-150.0 <= r && r <= 0.0);
+    } else if x == f32::INFINITY {
+        kani::assume(r == f32::INFINITY);
+    } else {
+        kani::assume(0.0 <= r && r <= 128.0);
+    }
+    r
+}
+
+/// ASSUMED contract of `f32::mul_add` (IEEE-754 fusedMultiplyAdd): NaN if an operand is NaN or
+/// the product is 0 * inf; for finite operands the magnitude of the (correctly rounded) result is
+/// at most |a||b| + |c| up to rounding.  `m` below is that bound evaluated in f32 (two roundings,
+/// relative error < 2^-22), hence the slack factor; if `m` overflows nothing is promised.
+fn ieee_mul_add(a: f32, b: f32, c: f32) -> f32 {
+    let r: f32 = kani::any();
+    if a.is_nan()
+        || b.is_nan()
+        || c.is_nan()
+        || (a == 0.0 && b.is_infinite())
+        || (a.is_infinite() && b == 0.0)
+    {
+        kani::assume(r.is_nan());
+    } else if a.is_finite() && b.is_finite() && c.is_finite() {
+        let m = a.abs() * b.abs() + c.abs();
+        if m.is_finite() {
+            kani::assume(r.abs() <= m * 1.0001 + 1.0e-30);
+        }
+    }
+    r
+}
+
+/// Callee contract of `find_sum_abs_f32`: for data with |x| <= 2^29 the sum of absolute values,
+/// accumulated in f32, is finite, lies in [0, len * 2^29], and is either exactly zero or at least
+/// one (every addend is zero or an integer >= 1 and f32 addition of non-negative numbers is
+/// monotone).  Proved for len 0..=4 by `c07_find_sum_abs_f32_contract`.
+fn contract_find_sum_abs_f32<const N: usize>(data: &[i32]) -> f32
+where
+    simd::LaneCount<N>: simd::SupportedLaneCount,
+{
+    // precondition |x| <= 2^29: the callers below bound the WHOLE array and only pass sub-slices of
+    // it; spot-checked here at both ends (a loop over a symbolic-length slice is what the stub avoids).
+    if !data.is_empty() {
+        assert!(data[0].unsigned_abs() <= C07_MAX_ABS_RESIDUAL as u32);
+        assert!(data[data.len() - 1].unsigned_abs() <= C07_MAX_ABS_RESIDUAL as u32);
+    }
+    let r: f32 = kani::any();
+    kani::assume(0.0 <= r && r <= data.len() as f32 * C07_MAX_ABS_RESIDUAL as f32);
+    kani::assume(r == 0.0 || r >= 1.0);
+    r
+}
+
+/// The contract above holds for the real reduction, every length 0..=4 (the lengths that occur in
+/// `c07_estimate_entropy_no_panic_n4`), every residual with |x| <= 2^29.
+//@ unit props=C07 tier=quick kind=bounded timeout=300 funcs="arrayutils::find_sum_abs_f32" bound="data.len() 0..=4, |x| <= 2^29" note="proves contract_find_sum_abs_f32"
+#[kani::proof]
+#[kani::unwind(18)]
+fn c07_find_sum_abs_f32_contract() {
+    let data: [i32; 4] = kani::any();
+    let mut i = 0;
+    while i < 4 {
+        kani::assume(-C07_MAX_ABS_RESIDUAL <= data[i] && data[i] <= C07_MAX_ABS_RESIDUAL);
+        i += 1;
+    }
+    let mut len = 0;
+    while len <= 4 {
+        let r = find_sum_abs_f32::<16>(&data[..len]);
+        assert!(0.0 <= r && r <= len as f32 * C07_MAX_ABS_RESIDUAL as f32);
+        assert!(r == 0.0 || r >= 1.0);
+        len += 1;
+    }
+    kani::cover!(data[0] == -C07_MAX_ABS_RESIDUAL && data[3] == 1);
+}
+
+/// `estimate_entropy` returns normally (no division by zero, no slice out of bounds, no
+/// arithmetic overflow) for every accepted partition count.
 ///
 /// Preconditions and why:
-///  * `1 <= partitions <= 64`: the range `config::OrderSel::verify` accepts (unit
-///    config::verif::c07_order_sel_exact), reached through `Fixed::verify` / `SubFrameCoding::verify`
-///    (units c07_fixed_exact, c07_subframe_coding_exact);
-///  * `warmup_len <= N`: the only caller passes the predictor order together with an error signal
-///    of the block length (`fixed_lpc`: order <= 4 < 32 <= block size);
-///  * `|e| < 2^25`: residuals of <= 24-bit audio (25 bits for a side channel) under the fixed
-///    predictors; excludes `i32::MIN`, whose `abs()` is not an input the encoder can produce.
-fn estimate_entropy_no_panic<const N: usize>() {
-    let errors: [i32; N] = kani::any();
+///  * `1 <= partitions <= 64`: exactly what `config::OrderSel::verify` accepts (unit
+///    config::verif::c07_order_sel_exact), and what reaches this function through
+///    `SubFrameCoding::verify -> Fixed::verify -> OrderSel::verify` (units c07_subframe_coding_exact,
+///    c07_fixed_exact);
+///  * `warmup_len <= errors.len()`: the only caller passes the predictor order with an error signal
+///    of block length (`fixed_lpc`: order <= 4 < 32 <= block size);
+///  * `|e| <= 2^29`: see `C07_MAX_ABS_RESIDUAL` (enters only through the reduction's contract).
+//@ unit props=C07 tier=quick kind=bounded timeout=300 funcs="coding::estimate_entropy" bound="errors.len() == 4; partitions 1..=64 complete (60 of them exercise the empty trailing partitions); warmup_len 0..=len complete" stubs="arrayutils::find_sum_abs_f32 -> contract_find_sum_abs_f32 (c07_find_sum_abs_f32_contract); f32::log2 -> libm_log2 (ASSUMED libm range contract); f32::mul_add -> ieee_mul_add (ASSUMED IEEE-754 fma contract)"
+#[kani::proof]
+#[kani::unwind(66)]
+#[kani::stub(find_sum_abs_f32, contract_find_sum_abs_f32)]
+#[kani::stub(f32::log2, libm_log2)]
+#[kani::stub(f32::mul_add, ieee_mul_add)]
+fn c07_estimate_entropy_no_panic_n4() {
+    let errors: [i32; 4] = kani::any();
     let mut i = 0;
-    while i < N {
-        kani::assume(-(1i32 << 25) < errors[i] && errors[i] < (1i32 << 25));
+    while i < 4 {
+        kani::assume(-C07_MAX_ABS_RESIDUAL <= errors[i] && errors[i] <= C07_MAX_ABS_RESIDUAL);
         i += 1;
     }
     let partitions: usize = kani::any();
     kani::assume(1 <= partitions && partitions <= 64);
     let warmup_len: usize = kani::any();
-    kani::assume(warmup_len <= N);
-    // Obligation: returns (no division by zero, no slice out of bounds, no arithmetic overflow).
+    kani::assume(warmup_len <= 4);
     let _bits = estimate_entropy(&errors, warmup_len, partitions);
     kani::cover!(partitions == 1);
     kani::cover!(partitions == 3 && warmup_len == 2);
-    kani::cover!(partitions == 64 && warmup_len == N);
-    kani::cover!(partitions > N && warmup_len == 0);
-}
-
-/// 4 residuals: partitions both smaller and (mostly) larger than the block, so the
-/// "empty trailing partition" path (`offset == end == block_size`) is exercised 60 times.
-//@ unit props=C07 tier=quick kind=bounded timeout=300 funcs="coding::estimate_entropy" bound="errors.len() == 4 (values: all 26-bit signed), partitions 1..=64 complete, warmup_len 0..=len complete"
-#[kani::proof]
-#[kani::unwind(66)]
-fn c07_estimate_entropy_no_panic_n4() {
-    estimate_entropy_no_panic::<4>();
+    kani::cover!(partitions == 64 && warmup_len == 4);
+    kani::cover!(partitions > 4 && warmup_len == 0 && _bits > 0);
 }
